@@ -20,6 +20,15 @@ static std::string CheckRow(const UniValue& row)
         if (p == 0) in.prevout.SetNull(); else in.prevout = COutPoint(Txid::FromUint256(uint256{(uint8_t)(p == 3 ? 3 : 1)}), p == 2 ? 8 : 7);
         { std::vector<unsigned char> b(i == 0 ? row["cbLen"].getInt<int>() : 2, 0x51); in.scriptSig = CScript(b.begin(), b.end()); }
         mtx.vin.push_back(in);
+        // bulk-input rows: pairwise distinct further outputs of the transaction that prevouts 1 and 2 belong to
+        const int nb = row.exists("bulkIn") ? row["bulkIn"].getInt<int>() : 0;
+        if (nb > 0 && ((row["bulkPos"].get_str() == "mid" && i == 0) || (row["bulkPos"].get_str() == "end" && i + 1 == ins.size()))) {
+            for (int k = 0; k < nb; ++k) {
+                CTxIn f; f.prevout = COutPoint(Txid::FromUint256(uint256{(uint8_t)1}), 100 + k);
+                f.scriptSig = CScript() << OP_TRUE << OP_TRUE;
+                mtx.vin.push_back(f);
+            }
+        }
     }
     if (row.exists("bulk")) for (int k = 0; k < row["bulk"].getInt<int>(); ++k) mtx.vout.emplace_back(MAX_MONEY, CScript() << OP_TRUE);
     for (size_t i = 0; i < outs.size(); ++i) {
